@@ -481,7 +481,49 @@ def plan_C04(ctx):
         for s in strings:
             for via in (("unmarshal",) if rec else ("unmarshal", "descriptor")):
                 cases.append({"ev": "hostile", "T": t["T"], "cfg": fam_codec.CFGS[t["cfg"]], "input": s, "via": via})
-    log("design check MCHostile: %d states; %d strings x %d targets -> %d cases" % (st["distinct"], len(strings), len(targets), len(cases)))
+    # the same strings as the body of a field the reader does not know (index 7, length-delimited and counted), inside a slice
+    # element, a nested struct and a map value: what Skip reports there is used by a caller that has more to read
+    def keyof(t):
+        return json.dumps(t["T"], sort_keys=True)
+    S2 = {"k": "struct", "name": "", "f": [
+        {"i": 1, "n": "A", "gn": "A", "enc": True, "opt": "", "tag": "", "t": {"k": "int", "w": 64}},
+        {"i": 2, "n": "B", "gn": "B", "enc": True, "opt": "", "tag": "", "t": {"k": "string"}}]}
+    want = {json.dumps({"k": "slice", "e": S2}, sort_keys=True): "slice"}
+    nested_targets = []
+    for t in targets:
+        T = t["T"]
+        if keyof(t) in want:
+            nested_targets.append((t, "slice"))
+        elif T.get("k") == "map" and T["val"].get("k") == "struct" and T["key"].get("k") == "struct":
+            nested_targets.append((t, "mapval"))
+        elif T.get("k") == "struct" and len(T["f"]) == 2 and T["f"][1]["t"].get("k") == "struct" and len(T["f"][1]["t"]["f"]) == 2 \
+                and T["f"][1]["t"]["f"][1]["t"].get("k") == "slice":
+            nested_targets.append((t, "nested"))
+    if len(nested_targets) < 2:
+        raise Broken("MCHostile's targets no longer contain the slice-of-struct / nested shapes the embedded cases need")
+    short = [s for s in strings if len(s) <= 3]
+    nemb = 0
+    for (t, shape) in nested_targets:
+        rec = t["T"].get("k") == "ref"
+        for s in short:
+            for w in (2, 3):
+                body = [7 << 3 | w] + s
+                if len(body) > 120:
+                    continue
+                for count in (1, 2):
+                    if shape == "slice":
+                        inp = [count, len(body)] + body
+                    elif shape == "nested":
+                        inner = [0x13, count, len(body)] + body
+                        inp = [0x12, len(inner)] + inner
+                    else:
+                        entry = [0x0a, 2, 0x08, 0x02, 0x12, len(body)] + body        # key {A: 1}, value: a struct holding only the unknown field
+                        inp = [count, len(entry)] + entry
+                    for via in ("unmarshal", "descriptor"):
+                        cases.append({"ev": "hostile", "T": t["T"], "cfg": fam_codec.CFGS[t["cfg"]], "input": inp, "via": via})
+                        nemb += 1
+    log("design check MCHostile: %d states; %d strings x %d targets -> %d cases (%d of them embedded as unknown fields in %d nested shapes)"
+        % (st["distinct"], len(strings), len(targets), len(cases), nemb, len(nested_targets)))
     p1 = os.path.join(ctx.work, "mc_cases.ndjson")
     fam_codec.write_cases(cases, p1, 0)
     n = 40000 if ctx.quick else 1500000
